@@ -609,7 +609,16 @@ fn harness_validator(key: &str, value: &Value) -> Result<(), PasetoClaimError> {
     if accept {
         Ok(())
     } else {
-        Err(PasetoClaimError::CustomValidation(format!("vh:{}", key)))
+        // a user's validator may fail with ANY claim error variant (the crate's own examples use `Unexpected` for a value of
+        // the wrong type): rotate through them; every one of them must make the parse fail
+        match ctor_turn() % 7 {
+            0 | 1 => Err(PasetoClaimError::CustomValidation(format!("vh:{}", key))),
+            2 => Err(PasetoClaimError::Unexpected(key.to_string())),
+            3 => Err(PasetoClaimError::Missing(key.to_string())),
+            4 => Err(PasetoClaimError::Invalid(key.to_string(), "expected".into(), "received".into())),
+            5 => Err(PasetoClaimError::Expired),
+            _ => Err(PasetoClaimError::RFC3339Date(key.to_string())),
+        }
     }
 }
 static HV: fn(&str, &Value) -> Result<(), PasetoClaimError> = harness_validator;
@@ -662,7 +671,7 @@ pub fn clone_turn<T: Clone>(c: T) -> T {
 macro_rules! set_claim_on {
     ($b:expr, $c:expr) => {
         match $c {
-            Claim::Custom(k, v) => match CustomClaim::try_from((k.as_str(), v.clone())) {
+            Claim::Custom(k, v) => match if ctor_turn() % 2 == 0 { CustomClaim::try_from((k.as_str(), v.clone())) } else { CustomClaim::try_from((k.clone(), v.clone())) } {
                 Ok(c) => {
                     $b.set_claim(clone_turn(c));
                     Ok(())
@@ -720,7 +729,7 @@ macro_rules! set_claim_on {
 macro_rules! check_claim_on {
     ($p:expr, $c:expr, $how:ident $(, $extra:expr)?) => {
         match $c {
-            Claim::Custom(k, v) => match CustomClaim::try_from((k.clone(), v.clone())) {
+            Claim::Custom(k, v) => match if ctor_turn() % 2 == 0 { CustomClaim::try_from((k.clone(), v.clone())) } else { CustomClaim::try_from((k.as_str(), v.clone())) } {
                 Ok(c) => {
                     $p.$how(c $(, $extra)?);
                     Ok(())
@@ -992,6 +1001,8 @@ macro_rules! impl_proto {
                             b.set_footer(Footer::from(f));
                         }
                         ia_builder!($assert, b, ia);
+                        // the core builder is Clone + Copy: every third one is used through an explicit clone()
+                        let mut b = clone_turn(b);
                         seal_core!($kind, $V, b, key, nonce)
                     },
                     perr,
